@@ -165,6 +165,31 @@ func verifC04_Weighted() {
 			verifCover("positive-weights")
 		}
 		verifCover("discovered-servers")
+		// the registry reports again, with other weights (all zero now, or some positive now):
+		// replacing the list never fails, and the rule holds for the new report as well
+		instances2 := map[string]*serviceregistry.ServiceInstanceSpec{}
+		total2 := 0
+		var w2 [5]int
+		for i := range servers {
+			w2[i] = int(verifInt("weightInSecondReport", 0, 100))
+			total2 += w2[i]
+			instances2[ids[i]] = &serviceregistry.ServiceInstanceSpec{InstanceID: ids[i], Address: "10.1.0.1", Port: uint16(8000 + i), Tags: []string{"blue"}, Weight: w2[i]}
+		}
+		sp.useService(instances2) // a panic here is reported as a violation
+		s2 := sp.LoadBalancer().ChooseServer(nil)
+		rep2 := -1
+		for i := range servers {
+			if s2 != nil && s2.URL == urls[i] {
+				rep2 = w2[i]
+			}
+		}
+		verifAssert(rep2 >= 0, "chosen-server-in-list")
+		if total2 > 0 {
+			verifAssert(rep2 > 0, "zero-weight-server-never-chosen")
+		}
+		if (total == 0) != (total2 == 0) {
+			verifCover("report-crossing-the-all-zero-border")
+		}
 		return
 	}
 	verifAssume(spec.Validate() == nil)
@@ -234,7 +259,7 @@ func verifC04_Service() {
 		sp.useService(instances)
 		lb := sp.LoadBalancer().(*roundRobinLoadBalancer)
 		if tagged == 0 {
-			verifAssert(len(lb.Servers) == 2 && lb.Servers[0] == static[0] && lb.Servers[1] == static[1], "fallback-to-static-list")
+			verifAssert(len(lb.Servers) == 2 && vIndexOf(lb.Servers, static[0]) >= 0 && vIndexOf(lb.Servers, static[1]) >= 0, "fallback-to-static-list")
 			verifCover("fallback")
 			if prevTagged > 0 {
 				verifCover("fallback-after-instances-vanished")
@@ -251,6 +276,33 @@ func verifC04_Service() {
 		verifAssert(s != nil && vIndexOf(lb.Servers, s) >= 0, "chosen-server-in-list")
 		prevTagged = tagged
 	}
+}
+
+// verifC04_FallbackSticky: a discovery-backed pool that keeps falling back to its static list
+// (report after report without a qualifying instance): the list is unchanged, so ipHash /
+// headerHash keep sending a key to the same server - through the balancer a request already
+// holds and through the one the pool hands out after the next report.
+func verifC04_FallbackSticky() {
+	static := vMakeServers(3, false)
+	pol := []string{LoadBalancePolicyIPHash, LoadBalancePolicyHeaderHash}[verifChoose("policy", 2)]
+	sp := &ServerPool{spec: &ServerPoolSpec{Servers: static, ServerTags: []string{"blue"}, LoadBalance: &LoadBalanceSpec{Policy: pol, HeaderHashKey: "X-Key"}}}
+	verifInitMaps(sp)
+	sp.useService(nil)
+	lb1 := sp.LoadBalancer()
+	keys := []string{"1.2.3.4", "5.6.7.8", "9.9.9.9"}
+	var first [3]*Server
+	for i, k := range keys {
+		first[i] = lb1.ChooseServer(vReq(k, k, true))
+		verifAssert(vIndexOf(static, first[i]) >= 0, "chosen-server-in-list")
+	}
+	// another report without a qualifying instance: still the static list
+	sp.useService(map[string]*serviceregistry.ServiceInstanceSpec{"i0": {InstanceID: "i0", Address: "10.1.0.1", Port: 8000, Tags: []string{"green"}}})
+	lb2 := sp.LoadBalancer()
+	for i, k := range keys {
+		verifAssert(lb1.ChooseServer(vReq(k, k, true)) == first[i], "equal-keys-same-server-while-the-list-is-unchanged")
+		verifAssert(lb2.ChooseServer(vReq(k, k, true)) == first[i], "equal-keys-same-server-while-the-list-is-unchanged")
+	}
+	verifCover("two-fallbacks-in-a-row")
 }
 
 // verifC04_Conc: concurrent selectors through the pool and a concurrent list
